@@ -189,7 +189,8 @@ func (cs *CamCase) cbValues(target string) []string {
 
 func (s *camServer) run(cs *CamCase) *camResult {
 	r := s.runOnce(cs)
-	for i := 0; i < 2 && r.step != "" && transient(r.err); i++ {
+	for i := 0; i < 2 && r.step != "" && transient(r.err) && !tooManyTimeouts(); i++ {
+		noteTimeout(r.err)
 		time.Sleep(200 * time.Millisecond)
 		r = s.runOnce(cs)
 	}
